@@ -14,6 +14,8 @@ pub fn tagged(v: &Value) -> J {
         Value::Bool(b) => json!({"t": "bool", "v": b}),
         Value::Int64(i) if i.abs() < 1_000_000 => json!({"t": "int", "v": i}),
         Value::String(s) => json!({"t": "str", "v": s.as_str()}),
+        // floats that are multiples of 0.5 are recorded in halves (QuerySem's FloatV)
+        Value::Float64(f) if (f * 2.0).fract() == 0.0 && f.abs() < 100_000.0 => json!({"t": "float", "v": (f * 2.0) as i64}),
         other => json!({"t": "other", "v": format!("{other:?}")}),
     }
 }
@@ -34,6 +36,8 @@ pub fn gen_graph(rng: &mut StdRng, maxn: usize, maxe: usize) -> Graph {
         let mut props: Vec<(&str, Value)> = vec![("u", Value::Int64(10 + i as i64))];
         if rng.random_range(0..4) != 0 { props.push(("k", Value::Int64(rng.random_range(0..4)))); }
         if rng.random_range(0..3) != 0 { props.push(("s", Value::String((if rng.random_bool(0.5) { "a" } else { "b" }).into()))); }
+        // a float property (multiples of 0.5), only ever aggregated or projected
+        if rng.random_range(0..3) != 0 { props.push(("f", Value::Float64(rng.random_range(-3..=5) as f64 * 0.5))); }
         let id = db.create_node_with_props(&labels, props.clone());
         ids.push(id);
         nodes.push(json!({"id": id.as_u64(), "labels": labels, "props": props.iter().map(|(k, v)| json!([k, tagged(v)])).collect::<Vec<_>>()}));
@@ -160,7 +164,9 @@ pub fn gen_query(rng: &mut StdRng, profile: &str) -> J {
             if rng.random_bool(0.6) { r.push(json!({"e": prop(rng, &nvars)})); }
             for _ in 0..rng.random_range(1..3) {
                 let agg = ["count", "count", "sum", "min", "max"][rng.random_range(0..5)];
-                let e = if agg == "count" && rng.random_bool(0.5) { json!({"op": "id", "var": nvars[rng.random_range(0..nvars.len())]}) } else { json!({"op": "prop", "var": nvars[rng.random_range(0..nvars.len())], "key": "k"}) };
+                // sum over the integer or the float property; min / max also over the string property
+                let key = match (agg, rng.random_range(0..10)) { ("sum", 0..=3) | ("min", 0..=2) | ("max", 0..=2) => "f", ("min", 3..=4) | ("max", 3..=4) => "s", _ => "k" };
+                let e = if agg == "count" && rng.random_bool(0.5) { json!({"op": "id", "var": nvars[rng.random_range(0..nvars.len())]}) } else { json!({"op": "prop", "var": nvars[rng.random_range(0..nvars.len())], "key": key}) };
                 r.push(json!({"agg": agg, "e": e}));
             }
             r
